@@ -134,6 +134,38 @@ def gen_tiny_scale(rng, nprng, count):
     return cases
 
 
+def gen_float_midcond(rng, count):
+    """single precision, cond(J) 330..500 — above the band where a generic problem can be judged (50 eps cond^2 > 0.5) but
+    still resolvable when J^T J and J^T Y are formed EXACTLY: two columns of small integers (p, p + s_i), so that every
+    product and sum is an integer below 2^24.  The only rounding left is in the 2x2 solve (a few eps * cond^2 <= 0.03): a
+    path that drops or mis-thresholds the small singular direction is off by O(1) and is judged here with tolerance 0.25."""
+    cases = []
+    while len(cases) < count:
+        n = rng.randint(2, 5)
+        p = rng.randint(120, 260)
+        ss = [rng.choice([-2, -1, 1, 2, 0]) for _ in range(n)]
+        J = np.array([[p, p + s] for s in ss], dtype=float)
+        sv = np.linalg.svd(J, compute_uv=False)
+        if sv[-1] <= 0 or not (330 <= sv[0] / sv[-1] <= 500):
+            continue
+        xt = [rng.choice([-3, -2, -1, 1, 2, 3]), rng.choice([-3, -2, -1, 1, 2, 3])]
+        Y = [int(J[i, 0]) * xt[0] + int(J[i, 1]) * xt[1] + rng.choice([0, 0, 1, -1]) for i in range(n)]
+        toks = ["D", str(n)]
+        for i in range(n):
+            toks += ["R", str(i), "2", hexf(float(J[i, 0])), hexf(float(J[i, 1])), hexf(float(Y[i])), hexf(1.0)]
+        toks += rng.choice(["XC XS", "XS XC", "XS"]).split()
+        cases.append("ls f32 C1 2 %s" % " ".join(toks))
+    return cases
+
+
+def exact_small_int_problem(rec):
+    J = rec["J"]
+    return rec["ty"] == "f32" and rec["op"] in ("XC", "XS") and len(J) <= 6 and all(len(r) == 2 for r in J) and \
+        all(float(v) == int(v) and abs(v) < 2048 for r in J for v in r) and \
+        all(float(v) == int(v) and abs(v) < 16384 for v in rec["Y"]) and \
+        all(float(rec["A"][i][j]) == (1.0 if i == j else 0.0) for i in range(2) for j in range(2)) and all(float(v) == 0.0 for v in rec["b"])
+
+
 def gen_raw(rng, nprng, count, maxn):
     """low-level sequences: repeated estimates without rewriting, weights applied twice, partial rewrites, estimate-size
     changes (reallocation or out-of-bounds = undef), out-of-range rows.  Correspondence only."""
@@ -193,6 +225,7 @@ def gen(rng, tier):
     big = tier == "thorough"
     groups = [("problem-sequences", gen_structured(rng, nprng, 1500 if big else 260, 60, tier)),
               ("tiny-scale", gen_tiny_scale(rng, nprng, 200 if big else 40)),
+              ("float-midcond-exact-normal-matrix", gen_float_midcond(rng, 120 if big else 24)),
               ("raw-op-sequences", gen_raw(rng, nprng, 1500 if big else 200, 24))]
     if big:
         groups.append(("large-problems", gen_structured(rng, nprng, 150, 500, tier)))
@@ -303,6 +336,9 @@ def tolerances(rec):
     # precision cannot resolve the problem at all (single precision: cond(J) above ~290) and the case is only counted.
     # Below that the estimate IS judged, with a margin of 20x (residual) / 50x (forward) over that bound: a solver that
     # drops a resolvable singular direction is off by O(1) and must not hide behind the tolerance.
+    if math.isfinite(cM) and 50 * eps * cM > 0.5 and eps * cM <= 0.03 and exact_small_int_problem(rec):
+        # J^T J and J^T Y are exact integers here: only the k x k solve rounds (see gen_float_midcond); forward tolerance 0.25
+        return 20 * eps * cM, 0.025, cJ
     if not math.isfinite(cM) or 50 * eps * cM > 0.5:
         return None
     return max(BASE[rec["ty"]], 20 * eps * cM), max(BASE[rec["ty"]], 5 * eps * cM), cJ
@@ -467,6 +503,13 @@ def compare(case, il, ml):
                         prev_tol = None
                         continue          # not resolvable in this precision: oracle-only (and the oracle skips it too)
                     tol = t3[1] * 10 * max(1.0, cond_A(rec["A"]))
+                    if rec["op"] == "XS" and 256 * EPS[rec["ty"]] * t3[2] ** 2 > 1:
+                        # the model's SVD oracle realisation (one-sided Jacobi) completes U by orthogonality, with an arbitrary
+                        # sign, for singular values below 64 eps sigma_max, while the solver inverts everything above eps
+                        # sigma_max: in between (single precision, cond(J) > ~180) the MODEL side is unreliable, so the
+                        # correspondence is not judged there; the exact-rational oracle still judges the implementation
+                        prev_tol = None
+                        continue
                     if rec["op"] == "XS" and svd_below_abs_eps(normal_eq_exact(rec)[2], rec["ty"]):
                         tol = max(tol, 1e-6)   # threshold side may differ by rounding of sigma; the oracle decides
                     prev_tol = tol
